@@ -1,0 +1,26 @@
+//go:build verif
+
+package s2
+
+// This file is compiled only with the build tag "verif". It exports thin
+// read-only wrappers needed by the area / curvature harness (property C18).
+// It adds no behaviour.
+
+// VerifLoopSurfaceIntegralFloat64 calls the unexported surfaceIntegralFloat64
+// with the caller's triangle function.
+func VerifLoopSurfaceIntegralFloat64(l *Loop, f func(a, b, c Point) float64) float64 {
+	return l.surfaceIntegralFloat64(f)
+}
+
+// VerifLoopSurfaceIntegralPoint calls the unexported surfaceIntegralPoint
+// with the caller's triangle function.
+func VerifLoopSurfaceIntegralPoint(l *Loop, f func(a, b, c Point) Point) Point {
+	return l.surfaceIntegralPoint(f)
+}
+
+// VerifLoopTurningAngleMaxError returns turningAngleMaxError().
+func VerifLoopTurningAngleMaxError(l *Loop) float64 { return l.turningAngleMaxError() }
+
+// VerifLoopBoundLngLength returns l.bound.Lng.Length(), the quantity the
+// shortcut of IsNormalized reads.
+func VerifLoopBoundLngLength(l *Loop) float64 { return l.bound.Lng.Length() }
